@@ -463,6 +463,11 @@ class SimulatorBackend(LocalBackend):
         # Process final ``CompleteEvent``
         self._time_keeper.advance_to(time_complete + 1e-3)
         self._process_events_until_now()
+        # Results of this trial which arrived after the last recent fetch are
+        # not returned anymore (not even if the trial is resumed later on)
+        result_list = self._next_results_to_fetch.pop(trial_id, None)
+        if result_list is not None:
+            self._last_metric_seen_index[trial_id] += len(result_list)
         self._time_keeper.mark_exit()
 
     def _run_job_and_collect_results(
